@@ -369,7 +369,7 @@ impl Part for LibPart {
         "sequences of 1..10 strings from the command grammar: 7 commands × case × leading/trailing blanks × optional quotes × optional ';' × arguments (1..40 digits, i64/u64 boundaries, role and on/off vocabulary in several cases, junk) × 18 near-miss mutations (prefix/suffix statement, comment, embedded in a literal, double space, tab, newline, dropped/extra token, misspelt keyword, ';;', double quotes, glued prefix, multi-line queries with a command on a line of its own); a hand-written three-valued recogniser says must-handle / must-forward / don't-care and a state machine predicts SHOW; oracle on QueryRouter::try_execute_command: agreement on the first two classes, no panic, SHOW value equals the model. Non-trivial = near miss, number longer than 19 digits, or a SHOW after >= 2 SETs".into()
     }
     fn cases(&self, tier: Tier) -> u64 {
-        tier.pick(150_000, 6_000_000)
+        tier.pick(600_000, 12_000_000)
     }
     fn strategy(&self, _tier: Tier) -> BoxedStrategy<Case> {
         case_strategy(11)
@@ -478,7 +478,7 @@ impl Part for WirePart {
         "the same generated command sequences sent as simple queries to the real binary (1..8 shards of mock backends): a must-handle string gets a well-formed reply ending in ReadyForQuery and nothing is received by any backend; a must-forward string arrives byte-identical at exactly one backend; SHOW values equal the model (including out-of-range SET SHARD leaving the selection). Non-trivial as in the lib part".into()
     }
     fn cases(&self, tier: Tier) -> u64 {
-        tier.pick(300, 8_000)
+        tier.pick(1_200, 16_000)
     }
     fn strategy(&self, _tier: Tier) -> BoxedStrategy<Case> {
         case_strategy(9)
